@@ -63,9 +63,12 @@ CONTRACTS['_set_up_sul_or_fh[made]'] = dict(
 
 MODELS.update({'WFHM': FHM, 'WPlainAttr': {'cls': 'Attribute', 'fields': {}}, 'WSUL': {'cls': 'StorageUnitLabel', 'fields': {}}})
 DF = {'cls': 'DLISFile', 'fields': {}}
+# (the physical file's set registry is given concretely - empty - so that a constructor that registers or looks up anything in it is seen
+#  by the frame condition: C09 "a FILE-HEADER record holding exactly one object" needs a header set of the logical file's own)
+DF_REG = {'cls': 'DLISFile', 'fields': {'_eflr_sets': {'cls': 'EFLRSetsDict', 'fields': {'__store__': 'clsdict{}'}}}}
 CONTRACTS['LogicalFile.__init__'] = dict(
     props=['C09', 'C18'], self_fields={},
-    params={'physical_file': DF, 'file_header': 'oneof[none,obj:WFHM]', 'fh_id': 'str', 'fh_identifier': 'str', 'fh_sequence_number': 'int'}, returns='none',
+    params={'physical_file': DF_REG, 'file_header': 'oneof[none,obj:WFHM]', 'fh_id': 'str', 'fh_identifier': 'str', 'fh_sequence_number': 'int'}, returns='none',
     stubs={'_set_up_sul_or_fh': dict(returns=FHM, raises=True, capture=True)}, may_raise=['StubException', 'ValueError', 'UnicodeEncodeError'],
     ensures=[('header-built-from-the-users-id-identifier-and-sequence-number',
               "implies(file_header is None, stub_call_set_up_sul_or_fh['kwargs']['header_id'] == fh_id and stub_call_set_up_sul_or_fh['kwargs']['identifier'] == fh_identifier "
